@@ -607,6 +607,38 @@ def _lemmas():
     # (ft_spec and reg_lookup(val) do not mention M/MNONE: checked syntactically here.)
     mentions = any(str(d) in ("guess_type_mime", "guess_type_is_none") for d in _decls(z3.And(is_none == is_none, val == val)))
     out.append(("C07/router.py::spec/lemma#extension-routing-independent-of-mime-database", [], z3.BoolVal(not mentions)))
+    # (round 7) the same as a 2-safety statement the solver discharges: the complete specified outcome of both entry points
+    # (supported?, raises?, extractor) under two ARBITRARY MIME databases (M, MNONE) / (M', MNONE') is the same whenever the
+    # extension decides -- the database symbols are replaced in the specification terms, nothing is read off their syntax
+    M2 = z3.Function("guess_type_mime!2", S, S)
+    MNONE2 = z3.Function("guess_type_is_none!2", S, z3.BoolSort())
+    q = z3.String("q!lem")
+    lq = LOWER(q)
+    nq, vq = ft_spec(lq)
+    outcome = _outcome_terms(q)
+    outcome2 = [z3.substitute_funs(t, (M, M2(z3.Var(0, S))), (MNONE, MNONE2(z3.Var(0, S)))) for t in outcome]
+    out.append(("C07/router.py::spec/lemma#two-mime-databases-same-outcome-when-the-extension-decides", [splitext_axioms(lq), z3.Not(nq)],
+                z3.And([a == b for a, b in zip(outcome, outcome2)])))
+    # ... and the converse direction of what "MIME fallback" means: without an extension decision the outcome is the one the
+    # database's answer has in the library's own table, whatever else the two databases say (same answer for this path => same outcome)
+    out.append(("C07/router.py::spec/lemma#mime-fallback-depends-on-the-database-only-through-guess_type(lower(path))",
+                [splitext_axioms(lq), MNONE(lq) == MNONE2(lq), z3.Implies(z3.Not(MNONE(lq)), M(lq) == M2(lq))],
+                z3.And([a == b for a, b in zip(outcome, outcome2)])))
+    # case-insensitivity: two spellings with the same lower-cased form have the same complete outcome at both entry points
+    q2 = z3.String("q2!lem")
+    out.append(("C07/router.py::spec/lemma#same-lowercased-path-same-outcome", [LOWER(q) == LOWER(q2)],
+                z3.And([a == b for a, b in zip(outcome, _outcome_terms(q2))])))
+    # call-site view used by other packs (contracts/C16.py::router_contracts: get_extractor as an ASSUMED "deterministic partial
+    # function of the path" GE_RAISES / GE_MOD / GE_FN; `attachments_site` below: is_supported_file(p) == not GE_RAISES(p)): implied by
+    # the contracts verified here -- the specified outcome is a function of the path alone (equal paths, equal outcome), exactly one
+    # of "raises the not-supported error" / "returns" holds, the two return cases exclude each other, and is_supported_file is the
+    # negation of the raise condition.  So GE_RAISES := raise condition, (GE_MOD, GE_FN) := specified result is a model of the view.
+    cases_q = ge_returns_for_term(q)
+    out.append(("C07/router.py::get_extractor/lemma#assumed-call-site-view-(deterministic-partial-function)-is-implied", [q == q2],
+                z3.And(z3.And([a == b for a, b in zip(outcome, _outcome_terms(q2))]),
+                       z3.Or([c for c, _ in cases_q]) == z3.Not(ge_raises_term(q)),
+                       z3.Not(z3.And([c for c, _ in cases_q])),
+                       sup_term(q) == z3.Not(ge_raises_term(q)))))
     # alias behaves exactly like its base, for every stem ending in a name character (A5 instances as hypotheses)
     s = z3.String("s!lem")
     last = z3.SubString(s, z3.Length(s) - 1, 1)
@@ -644,6 +676,16 @@ def _lemmas():
         if "#mime-fallback-routes." in oid:
             out.append((oid.replace("C16/", "C07/", 1), hyps, goal))
     return out
+
+
+def _outcome_terms(path, repo=None):
+    """the complete specified outcome of the two entry points on `path`: [is_supported_file, get_extractor raises, module, function]"""
+    (c1, v1), (c2, v2) = ge_returns_for_term(path, repo)
+    rz = ge_raises_term(path, repo)
+    empty = z3.StringVal("")
+    mod = z3.If(rz, empty, z3.If(c1, v1.items[0].t, v2.items[0].t))
+    fn = z3.If(rz, empty, z3.If(c1, v1.items[1].t, v2.items[1].t))
+    return [sup_term(path, repo), rz, mod, fn]
 
 
 def _decls(e):
@@ -996,7 +1038,9 @@ def attachments_site(repo, tier):
     if not any(c.target == sup_target for c in cs):
         reg.add(FnContract(target=sup_target, params=[("path", p_str())], assumed=True,
                            returns=lambda c: VBool(z3.Not(C16.GE_RAISES(c.args["path"].t))),
-                           note="verified by this pack (contract of is_supported_file + lemma is_supported-iff-get_extractor-returns)"))
+                           note="call-site VIEW of a contract verified by this pack, not an assumption of it: implied by the contract of "
+                                "is_supported_file + lemma get_extractor/lemma#assumed-call-site-view-(deterministic-partial-function)-is-implied "
+                                "(discharged: GE_RAISES := the verified raise condition is a model of the view C16 assumes of get_extractor)"))
     unknown = lambda why: {"id": f"{short}/out-of-subset", "kind": "out-of-subset", "status": "unknown", "vcs": 0, "seconds": 0.0,
                            "backends": {}, "witness": None, "reason": why[:300], "function": target, "loc": ""}
     if not isa:
